@@ -273,7 +273,7 @@ def run_job(unit, job, cpath, workdir, tier):
             ctext = ''
         for f in job.replace:
             # a stub that is declared but never called has no symbol in the binary (goto-instrument refuses it)
-            if ctext and len(re.findall(r'\b%s\s*\(' % re.escape(f), ctext)) <= 1:
+            if ctext and len(re.findall(r'\b%s\b' % re.escape(f), ctext)) <= 1:
                 continue
             cmd += ['--replace-call-with-contract', f]
         if job.loop_contracts:
